@@ -497,6 +497,9 @@ func SpecFor(prop, tier string) CheckSpec {
 	if tier == "thorough" && spec.Opts.BankFailEnum {
 		spec.Opts.MaxEnumBlocks = 40
 	}
+	if tier == "thorough" && len(spec.Profiles) > 0 && spec.Custom == "" {
+		spec.Profiles = append(append([]string{}, spec.Profiles...), "deep")
+	}
 	if tier == "thorough" && prop == "C14" {
 		spec.Opts.ReplayK = 4 // four shadow replicas instead of two
 	}
